@@ -319,7 +319,18 @@ impl<B: Backend> Fixture<B> {
                             } else if ext && *g > we && *g < n {
                                 "direction-bit-input".to_string()
                             } else {
-                                "input".to_string()
+                                // mode of the row this op produces
+                                let row = self.circuit.ops[..*op]
+                                    .iter()
+                                    .filter(|o| matches!(o, Op::NonPrimitiveOpWithExecutor { executor: e, .. } if e.op_type() == executor.op_type()))
+                                    .count();
+                                match fields::poseidon_rows::<B>(&self.honest)
+                                    .and_then(|p| p.operations.get(row))
+                                {
+                                    Some(r) if r.merkle_path => "input[merkle]".to_string(),
+                                    Some(_) => "input[sponge]".to_string(),
+                                    None => "input".to_string(),
+                                }
                             }
                         } else {
                             "input".to_string()
